@@ -260,6 +260,7 @@ def run(prog, ctx):
         ctx.fail("O6", "join_same_entries() is called", rf.where, "%d calls" % len(jc), key="join-call")
     else:
         o8(prog, ctx)
+        o9(prog, ctx)
         ok, cut = rcfg.all_paths_cut(rcfg.block_of(jc[0]), lambda lit, b, i: lit is not None and lit.atom.endswith("->join_same_entries") and lit.pol)
         if ok and cut:
             ctx.ok("O6", "join_same_entries() runs only under the option", jc[0].where, "behind `ef->join_same_entries`")
@@ -328,6 +329,22 @@ def run(prog, ctx):
             ctx.ok("O6", "join_same_entries() works on the file being read", jc[0].where, a0)
         else:
             ctx.fail("O6", "join_same_entries() works on the file being read", jc[0].where, "argument %s" % a0, key="join-arg")
+
+
+def o9(prog, ctx):
+    """O9: the text of a continuation line (python style: every indented line) reaches the value WHOLE - the parser unit copies
+    lines and values without a length limit (= the C14 verdicts for read_file / store / join_same_entries)."""
+    from sa.report import Ctx as _Ctx, FAIL as _FAIL
+    from rules import C14 as _C14
+    sub = _Ctx(ctx.prop, ctx.tier, prog)
+    _C14.judge(prog, sub, False)
+    n = 0
+    for ob in sub.obs:
+        if ob.instance.split(":")[0].split(" ")[0] in ("read_file", "store", "join_same_entries"):
+            n += 1
+            ob.rule = "O9"
+            ctx.obs.append(ob)
+    ctx.counts["O9 copy sites of the parser unit"] = n
 
 
 def o8(prog, ctx):
